@@ -480,6 +480,32 @@ package mcp
 //@   ensures @the-next-cursor-names-the-last-item-of-the-page calls(enc) == 1 ==> calls(uid) == 1 && callArg(enc, 1, 0) == callResult(uid, 1, 0) && callArg(uid, 1, 0) == at(filled, callArg(setFunc, 1, 1)[pageSize - 1])
 //@   snapshot filled after call setFunc
 
+// The client-side iterators (Tools, Prompts, Resources, ResourceTemplates) page through a listing exactly as manual
+// paging would: the first request carries the caller's params, every later request carries the next cursor of the
+// page before it; every item of a page is yielded, in order, before the next page is asked for; an error is yielded
+// alone and ends the iteration; nothing more is requested or yielded once the consumer stops, and the iteration
+// ends at the first page without a next cursor.
+//@ func paginate$1 [C17]
+//@   track listFunc as list
+//@   track yield
+//@   track items as pageItems
+//@   ghostvar pageStart int = 0
+//@   on call listFunc: pageStart = calls(yield)
+//@   track nextCursorPtr as nextPtr
+//@   track cursorPtr as curPtr
+//@   ghostvar next string = ""
+//@   on call nextCursorPtr: next = *$result
+//@   assert at call listFunc: @later-pages-are-requested-with-the-cursor-of-the-page-before calls(list) >= 1 ==> calls(curPtr) >= 1 && *lastResult(curPtr, 0) == next && next != "" && $1 == params
+//@   modifies *
+//@   assert at call listFunc: @a-page-is-requested-only-while-the-consumer-wants-more calls(yield) == 0 || lastResult(yield, 0)
+//@   assert at call yield: @nothing-is-yielded-after-the-consumer-stopped calls(yield) == 0 || lastResult(yield, 0)
+//@   assert at call yield: @an-error-is-yielded-alone $1 != nil ==> $0 == nil && $1 == lastResult(list, 1)
+//@   assert at call yield: @items-come-from-the-current-page $1 == nil ==> calls(pageItems) == calls(list) && lastResult(list, 1) == nil
+//@   ensures @ends-on-error-stop-or-last-page calls(list) >= 1
+//@   ensures @an-error-ends-the-iteration lastResult(list, 1) != nil ==> calls(yield) == pageStart + 1
+//@   loop 1: invariant @consumer-still-wants-more (calls(yield) == 0 || lastResult(yield, 0)) && calls(pageItems) == calls(list) && (calls(list) >= 1 ==> calls(curPtr) >= 1 && *lastResult(curPtr, 0) == next && next != "")
+//@   loop 2: invariant @every-item-of-the-page-in-order calls(yield) == pageStart + $idx && (calls(yield) == 0 || lastResult(yield, 0)) && lastResult(list, 1) == nil && calls(pageItems) == calls(list)
+//@   assert at call yield: @the-item-yielded-is-the-next-of-the-page $1 == nil ==> $0 == lastResult(pageItems, 0)[calls(yield) - pageStart]
 // The cursor codec decodes into a fresh local token (gob/base64 are library code): nothing that existed before the
 // call is written. Assumed, not verified.
 //@ func decodeCursor
